@@ -236,16 +236,16 @@ fn size_class(n: usize) -> &'static str {
 }
 
 fn lens(thorough: bool) -> Vec<usize> {
-    let mut v = vec![0, 1, 2, 3, 5, 32767 - 7, 32767, 32768, 32769, 65535 - 7, 65535, 65536, 100_000];
     if thorough {
-        v.extend([131_071, (1 << 20) + 1, (1 << 22) + 3]);
+        vec![0, 1, 2, 3, 5, 32767 - 7, 32767, 32768, 32769, 65535 - 7, 65535, 65536, 100_000, 131_071, (1 << 20) + 1, (1 << 22) + 3]
+    } else {
+        vec![0, 1, 2, 32767 - 7, 32767, 32768, 32769, 65535, 65536, 100_000]
     }
-    v
 }
 
 fn patterns(len_total: usize, thorough: bool) -> Vec<Pattern> {
     let mut v = vec![Pattern::Whole];
-    if len_total <= if thorough { 12 } else { 9 } {
+    if len_total <= if thorough { 12 } else { 8 } {
         // every composition of the stream
         enumerate::cuts(len_total, len_total, |c| {
             if !c.is_empty() {
@@ -254,8 +254,11 @@ fn patterns(len_total: usize, thorough: bool) -> Vec<Pattern> {
         });
     } else {
         // cuts at the internal buffer sizes (deflate 32 KiB, hasher 65535) +-1, right after the object header, and at the ends
-        let mut marks: Vec<usize> = [1, 7, 8, 32767, 32768, 32769, 65535, 65536, 65537, len_total / 2, len_total - 1]
-            .into_iter()
+        let all: &[usize] = &[1, 7, 8, 32767, 32768, 32769, 65535, 65536, 65537, len_total / 2, len_total - 1];
+        let fewer: &[usize] = &[1, 8, 32767, 32768, 32769, 65535, 65536, len_total - 1];
+        let mut marks: Vec<usize> = if thorough { all } else { fewer }
+            .iter()
+            .copied()
             .filter(|p| *p > 0 && *p < len_total)
             .collect();
         marks.sort_unstable();
@@ -273,10 +276,10 @@ fn patterns(len_total: usize, thorough: bool) -> Vec<Pattern> {
 
 pub fn run(run: &'static Run) {
     run.rule(
-        "data: lengths {0,1,2,3,5, 32760,32767,32768,32769, 65528,65535,65536, 100000; thorough + 131071, 1MiB+1, 4MiB+3} x {zeros, LCG bytes, repetitive commit text}, written as loose-object image (header + data); \
-         write patterns: whole; for images <= 9 bytes (thorough: <= 12) every composition; otherwise every 1- and 2-cut split at {1,7,8, 32767,32768,32769, 65535,65536,65537, len/2, len-1}; \
+        "data: lengths quick {0,1,2, 32760,32767,32768,32769, 65535,65536, 100000}, thorough {0,1,2,3,5, 32760,32767,32768,32769, 65528,65535,65536, 100000, 131071, 1MiB+1, 4MiB+3} x {zeros, LCG bytes, repetitive commit text}, written as loose-object image (header + data); \
+         write patterns: whole; for images <= 8 bytes (thorough: <= 12) every composition; otherwise every 1- and 2-cut split at {1,8, 32767,32768,32769, 65535,65536, len-1} (thorough also 7, 65537, len/2); \
          cyclic chunk sizes [0,1] [1] [7] [32767] [32768] [32769] [0,32768] [1,32768,0,32767] [65535] [65536,1] [4096,0,0,1] (0 = empty write); \
-         x (innermost writer accepting {all, 1, 4095} bytes per call, {write_all | checked write loop}): 4 combinations quick, all 6 thorough. \
+         x (innermost writer accepting {all, 1, 4095} bytes per call, {write_all | checked write loop}): 3 combinations quick, all 6 thorough. \
          non-trivial = stream inflates (reference + gitoxide streaming inflate in the same chunk pattern) to the input and all four ids agree",
     );
     run.assume("git 2.39.5 `git hash-object -t blob --stdin` (one call per distinct data, memoized) and `git cat-file blob` as oracles; one-shot flate2 inflate as reference decompressor");
@@ -319,7 +322,7 @@ pub fn run(run: &'static Run) {
                 let total = gix_object::encode::loose_header(gix_object::Kind::Blob, d.len as u64).len() + d.len;
                 for p in patterns(total, thorough) {
                     let variants: &[(usize, bool)] =
-                        if thorough { &[(0, true), (0, false), (1, true), (1, false), (4095, true), (4095, false)] } else { &[(0, true), (0, false), (1, true), (4095, false)] };
+                        if thorough { &[(0, true), (0, false), (1, true), (1, false), (4095, true), (4095, false)] } else { &[(0, true), (1, true), (4095, false)] };
                     for &(sink_accepts, write_all) in variants {
                         // the slow sinks and the hand-written loop multiply cost, not behaviours, for multi-megabyte data: keep the plain combination there
                         if d.len > 200_000 && (sink_accepts == 1 || !write_all && sink_accepts != 0) {
@@ -442,13 +445,17 @@ pub fn run(run: &'static Run) {
     let objects = vkit::scratch::Dir::new("c56objects");
     run.sub_with(
         "git-reads-loose-object",
-        vkit::Opts::default().chunk(64),
+        vkit::Opts::default().chunk(32),
         |emit| {
             for d in &datas {
                 if d.len > 200_000 && !thorough {
                     continue;
                 }
-                for p in [Pattern::Whole, Pattern::Cyclic(vec![0, 1]), Pattern::Cyclic(vec![32768]), Pattern::Cyclic(vec![1, 32768, 0, 32767]), Pattern::Cyclic(vec![32769])] {
+                let mut ps = vec![Pattern::Whole, Pattern::Cyclic(vec![1, 32768, 0, 32767]), Pattern::Cyclic(vec![32769])];
+                if thorough {
+                    ps.extend([Pattern::Cyclic(vec![0, 1]), Pattern::Cyclic(vec![32768])]);
+                }
+                for p in ps {
                     if d.len > 200_000 && matches!(&p, Pattern::Cyclic(s) if s == &vec![0, 1]) {
                         continue;
                     }
